@@ -11,6 +11,9 @@ ENGINES = {
 
 # id -> (engine, technique, level text, level note, design ref)
 CHECKS = {
+ "C08": ("e3", "exhaustive enumeration of (old,new) workload objects x Rollout sets as real JSON admission requests through the repository's real mutating handler chain; reference predicate + frame condition",
+         "320k (quick) / 4.5M (thorough) requests over Deployment, CloneSet, Advanced DaemonSet, native/Advanced/foreign StatefulSet: template change x rollout-id pairs x replicas x paused x annotation/strategy/status shapes x ReplicaSet sets x 19 Rollout sets (none, matching, other name/kind, disabled, deleting, traffic routing, empty strategy, two rollouts), with the webhook configuration built from config/webhook: response class equals the 40-line reference predicate taken from the property text (held back + marked / re-paused / unchanged), the returned JSON patch applies to the submitted bytes and changes only allow-listed paths, no panic, no denial, no store write.",
+         "Trusted: the reference predicate; cases the text does not decide (listed in the evidence assumptions) are judged on frame condition / no panic only.", "DESIGN.md §4 C08"),
  "C12": ("e3", "exhaustive enumeration of pod multisets x plans x batches through the real PatchPodBatchLabel / IsBatchReady on a fake store, applied twice (idempotence), plus reachable release histories; count / target / relabel / idempotence oracles",
          "Every pod set of up to 4 (quick) / 5 (thorough) pods over {new/old/unknown revision} x {CloneSet, ReplicaSet owner} x {live, terminating} x 12 pre-existing label shapes (current / foreign rollout-id; batch-id absent, in range, \"0\", \"-1\", \"99\", \"x\") x 17/22 plans (ints, percents, decreasing, malformed) x replicas x every current batch x {no filter, unordered, ordered} plus batch-by-batch reachable histories: labels only on live new-revision pods, count(id,i) <= max(before, increment_i), already-labelled pods untouched, second pass writes nothing, no panic, readiness does not count pods that do not belong.",
          "Trusted: fake client, the check's own BatchContext derivation (cross-checked against the real CalculateBatchContext on every (plan, replicas, batch) before enumerating).", "DESIGN.md §4 C12"),
@@ -32,6 +35,27 @@ CHECKS = {
  "C02": ("clustermc", "explicit-state BFS over the real reconcilers with crash actors (between reconciles and after every write inside a reconcile); transition monitor on every persisted Rollout status write",
          "Every persisted change of the step cursor is judged: Upgrade->TrafficRouting only with a current, observed, Ready BatchRelease authorised for that step; Paused->Ready by the controller only after the duration or on a 100% last step; index changes only from StepReady or after a user request; no forward move in a reconcile that started with spec.strategy.paused. Interleavings unbounded; <=1 user deviation and <=1 crash (any write index) per path in quick.",
          "Same trusted base as C01.", "DESIGN.md §4 C02"),
+ "C03": ("clustermc", "explicit-state BFS over the real reconcilers + traffic oracle (pure function from Services/Ingress annotations to canary share / matches); monitor on every network write and on every 'routed' report",
+         "Every write that raises the canary share / adds a match happens only with a BatchRelease that reports the step's batch Ready (current generation); when the Rollout persists leaving StepTrafficRouting the oracle's share equals the step's traffic exactly; with traffic on step 1 the stable Service is pinned before the first knob write that lets new-revision pods be created. <=1 user deviation (jumps, plan edit, scale) per path in quick.",
+         "Trusted: the traffic oracle (documented ingress-nginx canary annotation semantics), CloneSet model. Quick tier: CloneSet + nginx Ingress only.", "DESIGN.md §4 C03"),
+ "C04": ("clustermc", "explicit-state BFS with the invariant evaluated on the live store after EVERY single API write (= every crash prefix), blame rule for externally induced breaks; crash actor",
+         "After every write of every explored history (success, rollback, supersession, disable, delete, jump): a gateway rule that routes to the canary Service implies the Service exists and selects the revision being released; a pinned stable Service that still receives traffic has pods of that revision; the knob is not opened to all pods while the stable Service is still pinned. Only writes by the repository's controllers are charged.",
+         "Same as C03.", "DESIGN.md §4 C04"),
+ "C05": ("clustermc", "explicit-state BFS with exit actions (rollback, disable, delete, completion) injected once per control state; round-trip oracle at every settled terminal state",
+         "At every settled state in which the rollout has ended (completed / rolled back / disabled / deleted): no BatchRelease, canary Service / Ingress / Deployment, no rollout markers on the workload, stable Service selector and Ingress equal to the user's originals, workload not paused / partition 0, every pod on the desired revision and ready.",
+         "Same as C03; the baseline is captured before the release.", "DESIGN.md §4 C05"),
+ "C06": ("clustermc", "explicit-state BFS with fault enumeration: for every reconcile transition, crash after every write index, API error at every call index, conflict at every write call; all safety monitors of C01-C05/C09/C11/C18 run on the disturbed paths; liveness analysis on a real-queue run with crashes",
+         "<=1 disturbance per path at every position (exhaustive, not random): all safety monitors stay green, terminal states are clean (same round-trip oracle as C05), no second canary Deployment, and with real queues every disturbed path still finishes (no bottom component short of the terminal state).",
+         "Same as C03; <=1 disturbance in quick, 2 in thorough.", "DESIGN.md §4 C06"),
+ "C07": ("clustermc", "explicit-state BFS with REAL queue semantics (requeue-after, rate-limited requeue, watch events through the repository's real predicates and handlers) and Tarjan SCC analysis of the fair-edge graph",
+         "On the complete graph of each scenario (approvals granted): every bottom strongly connected component consists of settled states (Healthy / waiting for the user), no state without a pending wake-up is short of the terminal state (missing requeue / over-strict predicate = deadlock), no cycle rewrites the store (oscillation). Provider fixed points are decided by C13-C15 (E3).",
+         "Liveness assumes the healthy subset of the env models; quick: CloneSet scenarios.", "DESIGN.md §4 C07"),
+ "C10": ("clustermc", "explicit-state BFS with rollback / new revision injected once per control state plus crash at any write; ordering monitor on the write log against the traffic oracle",
+         "After a rollback or supersession, while the gateway still routes to the canary: the BatchRelease is not deleted / resumed (batchPartition nil), the workload is not handed back (control annotation removed) and the canary Service is not deleted.",
+         "Same as C03.", "DESIGN.md §4 C10"),
+ "C18": ("clustermc", "explicit-state BFS with deletion injected once per control state and crash / API error at every call of the teardown; monitor on every finalizer-removing write",
+         "Whenever a controller removes its own finalizer from a Rollout / BatchRelease the residue predicate is empty at that instant (no canary route, stable Service not pinned, no BatchRelease, workload not marked controlled / in progress).",
+         "TrafficRouting CR scenarios not yet in the quick tier.", "DESIGN.md §4 C18"),
  "C09": ("clustermc", "explicit-state BFS over the real reconcilers with every class of user-patchable nextStepIndex (<0, 0, in range, len+1, MaxInt32) injected once per control state; panic monitor around every Reconcile and event handler",
          "No panic escapes any Reconcile or event handler on any explored path (recovered, top repository frame as signature).", "Stage 1 (spec enumeration through the validating webhook) not yet built; same trusted base as C01.", "DESIGN.md §4 C09"),
  "C11": ("clustermc", "explicit-state BFS over the real reconcilers; monitor on every BatchRelease status write against the pods in the store at that instant, and on every settled state",
